@@ -112,9 +112,8 @@ NOT_COVERED = {
     'C14': ['decode_hermes function-map decoding (running column/name/line state)', 'get_original_function_name wrapper', 'stability under serialise/decode'],
     'C01': ['mapping-level inverse lemma decode(encode(ts)) == dedup(ts) (spec level)', 'as_raw_sourcemap field plumbing (SourceMap / SourceMapIndex / Hermes)',
             'decode_regular tail (names / sources / contents / file / debug id / ignore list conversions)', 'serde_json layer'],
-    'C02': ['exact accumulator semantics of the mapping loop against a reference mappings decoder', 'decode_common kind dispatch', 'lenient names/file/sources conversions, debug_id precedence'],
+    'C02': ['decode_common kind dispatch', 'lenient names/file/sources conversions, debug_id precedence'],
     'C03': ['as_raw_sourcemap field plumbing and the serde skip_serializing_if attributes', 'index-map sections', '"an independent decoder reads it back" needs the mapping-level inverse lemma'],
-    'C06': ['segment arity and index-range rejection stated against a reference mappings decoder (only "no stored index is unresolvable" and the VLQ-level clauses are proved)'],
     'C07': ['range bitfield WRITER (serialize_range_mappings / encode_rmi): not under contract yet; design-phase replay shows defects D3/D4/D8 there'],
     'C11': ['canonical-text direction encode(decode(s)) == s'],
     'C12': ['detection predicates is_sourcemap / is_sourcemap_slice wiring', 'decode_data_url'],
